@@ -188,8 +188,11 @@ def held_case(case):
     keeps every gate object and every returned matrix, and only afterwards checks them: each gate reports the parameters it was asked for, each held
     matrix is unchanged since it was returned and equals the symbolic matrix at its parameters, and the group law holds between HELD matrices"""
     import math
-    vals1 = [-2, -1, 0, 1, 2, 3, -1.0, -2.0, 0.5, sympy.Integer(-1), sympy.Integer(-2), sympy.Rational(1, 2), math.pi, -0.5]
+    vals1 = [-2, -1, 0, 1, 2, 3, -1.0, -2.0, 0.5, sympy.Integer(-1), sympy.Integer(-2), sympy.Rational(1, 2), math.pi, -0.5,
+             # exact symbolic constants (exact zeros of cos/sin appear: nothing may divide by them) and tiny angles (entries of order 1e-8 are still entries)
+             sympy.pi, sympy.pi / 2, 2 * sympy.pi, -sympy.pi, sympy.pi / 3, 3 * sympy.pi, 1.5e-8, -4e-8, 3e-7]
     valsk = [-2, -1, 0.5]
+    valsk_exact = [sympy.pi, 0, sympy.pi / 2]
     table = TABLE if case["order"] == "fwd" else TABLE[::-1]
     held, funcs = [], {}
     ops = 0
@@ -197,7 +200,7 @@ def held_case(case):
         syms = sympy.symbols("theta phi lam", real=True)[:k]
         if k:
             funcs[name] = sympy.lambdify(syms, get_gate(name, syms).matrix, "numpy")
-        pts = [()] if k == 0 else [(v,) for v in vals1] if k == 1 else list(itertools.product(valsk, repeat=k))
+        pts = [()] if k == 0 else [(v,) for v in vals1] if k == 1 else list(itertools.product(valsk, repeat=k)) + list(itertools.product(valsk_exact, repeat=k)) + [(1.5e-8,) * k]
         if case["order"] == "rev":
             pts = pts[::-1]
         for pt in pts:
@@ -213,7 +216,11 @@ def held_case(case):
             return {"ok": False, "msg": "the matrix returned for %s%s changed while other gate matrices were computed" % (name, pt), "expected": str(snap), "observed": str(M), "sig": "held:aliased", "ops": ops}
         if pt:
             exp = np.array(funcs[name](*[complex(x).real for x in pt]), dtype=complex)
-            if np.abs(N(M) - exp).max() > 1e-9 or np.abs(N(g.matrix) - exp).max() > 1e-9:
+            try:
+                got = N(M)
+            except Exception as e:  # noqa: BLE001
+                return {"ok": False, "msg": "%s%s: the matrix has entries that are not numbers (%s): %s" % (name, pt, e, M), "sig": "held:not-a-number", "ops": ops}
+            if not np.all(np.isfinite(got)) or np.abs(got - exp).max() > 1e-9 or np.abs(N(g.matrix) - exp).max() > 1e-9:
                 return {"ok": False, "msg": "%s%s: held matrix / re-read matrix is not the gate's matrix at these parameters" % (name, pt), "sig": "held:value", "ops": ops}
     by = {}
     for name, pt, g, M, snap in held:
